@@ -103,6 +103,39 @@ func propC01(c *Ctx) {
 		}
 	}
 
+	// the third table: constLiteral.toExpr (constant -> literal substituted for an identifier)
+	if te := l.Decl(methodObj(p.Types, "constLiteral", "toExpr")); c.Anchor(rl, "constLiteral.toExpr", te != nil) && len(pairs) >= 7 {
+		back := map[string]string{}
+		ast.Inspect(te.Body, func(n ast.Node) bool {
+			cl, ok := n.(*ast.CaseClause)
+			if !ok || len(cl.List) != 1 {
+				return true
+			}
+			ot := info.TypeOf(cl.List[0])
+			if ot == nil || namedOf(ot) == nil {
+				return true
+			}
+			ast.Inspect(cl, func(m ast.Node) bool {
+				if lit, ok := m.(*ast.CompositeLit); ok {
+					if lt := info.TypeOf(lit); lt != nil && namedOf(lt) != nil && namedOf(lt).Obj().Pkg() != nil && namedOf(lt).Obj().Pkg().Path() == parserPath {
+						back[namedOf(ot).Obj().Name()] = namedOf(lt).Obj().Name()
+					}
+				}
+				return true
+			})
+			return true
+		})
+		var lits []string
+		for k := range pairs {
+			lits = append(lits, k)
+		}
+		sort.Strings(lits)
+		for _, lit := range lits {
+			obj := pairs[lit]
+			c.Check(rl, "toExpr: "+obj+" -> "+lit, l.Pos(te.Pos()), back[obj] == lit, "inverse pair", fmt.Sprintf("a %s constant substituted for an identifier becomes a %q literal, which the compiler turns into another object kind than %s: the optimized program computes with a different type (e.g. uint constant folded with int semantics)", obj, back[obj], obj))
+		}
+	}
+
 	// ---- falsy-agree ----------------------------------------------------------------------
 	ry := c.Rule("falsy-agree", "the optimizer's truthiness of a literal is the IsFalsy of the object the literal denotes (dead-branch elimination must choose the branch the VM would take): each arm of isLiteralFalsy calls IsFalsy on the object type paired with its literal kind", 6)
 	falsyFn, _ := p.Types.Scope().Lookup("isLiteralFalsy").(*types.Func)
@@ -365,6 +398,27 @@ func ruleBindCover(c *Ctx, rule string) {
 	// covered: (struct, field) pairs whose Ident's Name reaches define
 	covered := map[string]bool{}
 	lhsIdent := false
+	// the *Ident values whose Name reaches define, following wrappers that take the *Ident as a parameter
+	var identSrcs []ssa.Value
+	var addSrc func(v ssa.Value, depth int)
+	addSrc = func(v ssa.Value, depth int) {
+		if p, ok := v.(*ssa.Parameter); ok && depth < 3 && types.Identical(p.Type(), types.NewPointer(identT)) {
+			fn := p.Parent()
+			idx := -1
+			for i, q := range fn.Params {
+				if q == p {
+					idx = i
+				}
+			}
+			for _, ci := range l.StaticCallers(fn) {
+				if a := ci.Common().Args; idx >= 0 && idx < len(a) {
+					addSrc(a[idx], depth+1)
+				}
+			}
+			return
+		}
+		identSrcs = append(identSrcs, v)
+	}
 	for _, ci := range l.StaticCallers(define) {
 		arg := ci.Common().Args[1]
 		u, ok := arg.(*ssa.UnOp)
@@ -375,8 +429,11 @@ func ruleBindCover(c *Ctx, rule string) {
 		if !ok {
 			continue
 		}
+		addSrc(fa.X, 0)
+	}
+	for _, src0 := range identSrcs {
 		// where does the *Ident come from?
-		src := fa.X
+		src := src0
 		for depth := 0; depth < 6 && src != nil; depth++ {
 			switch x := src.(type) {
 			case *ssa.UnOp:
